@@ -83,15 +83,45 @@ func init() {
 				c.addExpect("obj.get "+hx(sha1sum(append([]byte("x"), content...))), "roundtrip", "err")
 				cases = append(cases, c)
 			}
+			// a crowded store: several hundred objects in ONE store, so that most fan-out directories
+			// (objects/xx) hold several objects, then every one is read back and stored again
+			nCrowd := 700
+			if ctx.Tier == "thorough" {
+				nCrowd = 3000
+			}
+			crowd := Case{Name: fmt.Sprintf("crowded-store-%d", nCrowd), Tag: "crowded-store"}
+			crowd.add("st.clear")
+			var cps [][]byte
+			for j := 0; j < nCrowd; j++ {
+				d := append([]byte(fmt.Sprintf("crowd %d ", j)), r.bytesN(r.intn(24))...)
+				cps = append(cps, d)
+				k := kinds[j%3]
+				content := objContent(k, d)
+				crowd.addExpect("obj.new "+k+" "+hx(d), "id", hx(sha1sum(content))+" "+hx(content))
+			}
+			for j, d := range cps {
+				k := kinds[j%3]
+				crowd.addExpect("obj.get "+hx(sha1sum(objContent(k, d))), "roundtrip", "ok "+k+" "+hx(d))
+			}
+			for j := 0; j < nCrowd; j += 7 {
+				k := kinds[j%3]
+				content := objContent(k, cps[j])
+				crowd.addExpect("obj.new "+k+" "+hx(cps[j]), "stable", hx(sha1sum(content))+" "+hx(content))
+				crowd.addExpect("obj.get "+hx(sha1sum(content)), "stable", "ok "+k+" "+hx(cps[j]))
+			}
+			cases = append(cases, crowd)
 			return cases
 		},
 		Impl: runImplAPI,
 		Nontrivial: func(c Case, impl []string) bool {
+			if c.Tag == "crowded-store" {
+				return len(impl) > 800 && strings.HasPrefix(impl[800], "ok ")
+			}
 			return len(impl) > 3 && strings.HasPrefix(impl[3], "ok ")
 		},
 		Rule: "payload pool: SHA-1 block-boundary lengths, all 256 byte values, header look-alikes ('blob 3\\0abc', leading digits/spaces), " +
 			"invalid UTF-8, random and highly compressible strings up to 64 KiB (thorough: up to 3 MiB) x kinds blob/tree/commit; each case stores, " +
-			"reads back, stores other content, stores again and reads both back, through NewObject/Write/GetObject in-process with an independent " +
+			"reads back, stores other content, stores again and reads both back; plus one crowded store (700 objects, thorough 3000, in one store so that fan-out directories are shared; all read back and every 7th stored again), through NewObject/Write/GetObject in-process with an independent " +
 			"inflate + crypto/sha1; a case is distinct by its script and non-trivial when the stored object was read back successfully",
 		Theorems: []string{"C01.decode_encode", "C01.get_put", "C01.put_frame", "C01.put_idem", "C01.id_eq", "C01.encode_injective"},
 		Trusted:  []string{"compress/zlib (cross-checked by an independent inflate)", "crypto/sha1 (the model's executable SHA-1 is compared with it on every payload)"},
